@@ -265,11 +265,12 @@ class Environment:
                         f'until(={at}) must be > the current simulation time.'
                     )
 
-                # Schedule the event before all regular timeouts.
+                # Schedule the event before all regular timeouts, at exactly
+                # `at`: `now + (at - now)` is not always `at` in floating point.
                 until = Event(self)
                 until._ok = True
                 until._value = None
-                self.schedule(until, URGENT, at - self.now)
+                heappush(self._queue, (at, URGENT, next(self._eid), until))
 
             elif until.callbacks is None:
                 # Until event has already been processed.
